@@ -1,2 +1,57 @@
-(* C08 placeholder; theorems follow *)
-From SudachiVerif Require Import Model.Buffer.
+(* C08 — Code-point offsets agree with byte offsets; the offset map is monotone and anchored.
+   Only the property theorems; each is closed by `exact` of a lemma of Proofs/BufferProofs.v.
+
+   Vocabulary (Model/Buffer.v): a text is its list of UTF-8 bytes; `wf_text o` = non-empty texts start with a lead byte
+   (true of every Rust String); `is_boundary t i` = str::is_char_boundary; `Reach cfg o s` = s is obtained from
+   start_build on o by any number of batches of ordered, non-overlapping edits on character boundaries (`edits_ok`:
+   deletions, insertions, shorter / longer / equal replacements, adjacent edits, at start / middle / end), each accepted
+   by commit and leaving the text non-empty; `the_cfg` = the guards / index choices / sentinels read from the Rust
+   source by gen/factmods/BufferFacts.py on this run. *)
+From Coq Require Import List NArith Arith.
+From SudachiVerif Require Import Model.Buffer Proofs.BufferProofs.
+Import ListNotations.
+Open Scope nat_scope.
+
+(* decidable side condition on the regenerated facts: identity map 0..=len, first entry forced to 0, replacement maps
+   first byte -> map[start], others -> map[end], loop from 1, sentinels *)
+Fact C08_facts_ok : cfg_ok the_cfg = true.
+Proof. vm_compute. reflexivity. Qed.
+
+(* after any sequence of batches: right length, start -> start, end -> end, monotone, boundaries -> boundaries *)
+Theorem C08_inv_all_batches :
+  forall o s, wf_text o = true -> Reach the_cfg o s ->
+    orig s = o /\
+    length (m2o s) = length (cur s) + 1 /\
+    nth 0 (m2o s) 0 = 0 /\
+    nth (length (cur s)) (m2o s) 0 = length o /\
+    (forall i j, i <= j -> j <= length (cur s) -> nth i (m2o s) 0 <= nth j (m2o s) 0) /\
+    (forall p, is_boundary (cur s) p = true -> is_boundary o (nth p (m2o s) 0) = true).
+Proof. exact (inv_all_batches the_cfg C08_facts_ok). Qed.
+Print Assumptions C08_inv_all_batches.
+
+(* fill_orig_b2c: on every character boundary b of the original the table holds the number of code points before b *)
+Theorem C08_orig_b2c_counts_codepoints :
+  forall o b, is_boundary o b = true -> nth_error (orig_b2c the_cfg o) b = Some (Some (codepoints_before o b)).
+Proof. exact (orig_b2c_counts_codepoints the_cfg C08_facts_ok). Qed.
+Print Assumptions C08_orig_b2c_counts_codepoints.
+
+(* Morpheme::begin_c / end_c (what Python exposes as begin() / end()): for every character index of the rewritten text
+   the accessors do not panic, the byte offset is a boundary of the original and the code-point offset is the number of
+   code points of the original before that byte offset *)
+Theorem C08_begin_c_counts_codepoints :
+  forall o s ci, wf_text o = true -> Reach the_cfg o s -> ci <= count_leads (cur s) ->
+    exists b, to_orig_byte_idx s ci = Some b /\ is_boundary o b = true /\
+              to_orig_char_idx the_cfg s ci = Some (codepoints_before o b).
+Proof. exact (begin_c_counts_codepoints the_cfg C08_facts_ok). Qed.
+Print Assumptions C08_begin_c_counts_codepoints.
+
+(* slicing the original by the reported code-point offsets gives the same bytes as slicing by the byte offsets,
+   for every query range on character positions *)
+Theorem C08_char_slice_eq_byte_slice :
+  forall o s ci cj, wf_text o = true -> Reach the_cfg o s -> ci <= cj -> cj <= count_leads (cur s) ->
+    exists bi bj ai aj,
+      to_orig_byte_idx s ci = Some bi /\ to_orig_byte_idx s cj = Some bj /\
+      to_orig_char_idx the_cfg s ci = Some ai /\ to_orig_char_idx the_cfg s cj = Some aj /\
+      cp_slice o ai aj = byte_slice o (bi, bj).
+Proof. exact (char_slice_eq_byte_slice_reach the_cfg C08_facts_ok). Qed.
+Print Assumptions C08_char_slice_eq_byte_slice.
